@@ -384,8 +384,43 @@ def _ann_kind(ann):
     return None
 
 
+STR_METHODS = {"strip", "lstrip", "rstrip", "lower", "upper", "title", "format", "join", "replace", "capitalize", "removeprefix", "removesuffix"}
+_STR_ATTRS = set()
+
+
+def str_class_attrs(trees):
+    """class-level attribute names that are bound to string constants in every class that defines them (NAME, DESCRIPTION ...)"""
+    seen = {}
+    for t in trees.values():
+        for c in [n for n in ast.walk(t) if isinstance(n, ast.ClassDef)]:
+            for st in c.body:
+                if isinstance(st, ast.Assign) and len(st.targets) == 1 and isinstance(st.targets[0], ast.Name):
+                    seen.setdefault(st.targets[0].id, set()).add(isinstance(st.value, ast.Constant) and isinstance(st.value.value, str) or isinstance(st.value, ast.JoinedStr))
+                elif isinstance(st, ast.AnnAssign) and isinstance(st.target, ast.Name) and ast.unparse(st.annotation) == "str":
+                    seen.setdefault(st.target.id, set()).add(True)
+    return {k for k, v in seen.items() if v == {True}}
+
+
+def _elt_is_str(e):
+    if isinstance(e, ast.Constant) and isinstance(e.value, str):
+        return True
+    if isinstance(e, ast.JoinedStr):
+        return True
+    if isinstance(e, ast.Call) and isinstance(e.func, ast.Name) and e.func.id == "str":
+        return True
+    if isinstance(e, ast.Call) and isinstance(e.func, ast.Attribute) and e.func.attr in STR_METHODS:
+        return True
+    if isinstance(e, ast.Attribute) and e.attr in _STR_ATTRS:
+        return True
+    return False
+
+
 def _set_kind(e, env):
     """hash-order kind of a set-valued expression"""
+    if isinstance(e, ast.SetComp) and _elt_is_str(e.elt):
+        return "unstable"
+    if isinstance(e, ast.Call) and isinstance(e.func, ast.Name) and e.func.id in ("set", "frozenset") and e.args and isinstance(e.args[0], (ast.GeneratorExp, ast.ListComp)) and _elt_is_str(e.args[0].elt):
+        return "unstable"
     if isinstance(e, ast.Name):
         return env.get(e.id)
     if isinstance(e, ast.BinOp) and isinstance(e.op, (ast.Sub, ast.BitOr, ast.BitAnd, ast.BitXor)):
@@ -498,6 +533,11 @@ def rule_hash_order(ctx, rep):
     fx = ast.parse("def f(ctx, s: Set[str]):\n    ctx.possible_addr = list(s - set(['A']))\n    ctx.x = sorted(s)\n")
     rep.require(len(order_sites(fx)) == 1, "E-ORDER does not recognise its positive fixture")
     n = 0
+    _STR_ATTRS.clear()
+    _STR_ATTRS.update(str_class_attrs(ctx.trees))
+    fx3 = ast.parse("def h(ds, ex):\n    sel = {d.NAME for d in ds} - {x.strip() for x in ex}\n    return [ds[n] for n in sel]\n")
+    _STR_ATTRS.add("NAME")
+    rep.require(len([1 for _, _, k in order_sites(fx3) if k == "unstable"]) == 1, "E-ORDER does not recognise its set-comprehension fixture")
     for modname, tree in ctx.trees.items():
         parent = {}
         for p in ast.walk(tree):
@@ -519,11 +559,27 @@ def rule_hash_order(ctx, rep):
                         observable = True
             if isinstance(st, ast.Return) and fn.name in ("to_json",):
                 observable = True
-            if kind == "unstable" and observable and not wrapped_sorted:
+            worklist = False
+            tgt = st.targets[0] if isinstance(st, ast.Assign) and len(st.targets) == 1 else st.target if isinstance(st, ast.AnnAssign) else None
+            if isinstance(tgt, ast.Name) and getattr(st, "value", None) is node:
+                # worklist idiom: a local that is only drained (pop), refilled (append/extend) and tested for emptiness; the
+                # fixpoint it drives collects into sets, so the order in which it is drained is not visible
+                uses = [u for u in ast.walk(fn) if isinstance(u, ast.Name) and u.id == tgt.id and u is not tgt]
+                def _wl(u):
+                    pu = parent.get(u)
+                    if isinstance(pu, ast.Attribute) and pu.attr in ("pop", "append", "extend") and isinstance(parent.get(pu), ast.Call) and parent[pu].func is pu:
+                        return True
+                    if isinstance(pu, (ast.While, ast.If)) and pu.test is u:
+                        return True
+                    if isinstance(pu, ast.UnaryOp) and isinstance(pu.op, ast.Not):
+                        return True
+                    return False
+                worklist = bool(uses) and all(_wl(u) for u in uses) and any(isinstance(parent.get(u), ast.Attribute) and parent[u].attr == "pop" for u in uses)
+            if kind == "unstable" and not wrapped_sorted and not worklist:
                 rep.violation(rule, f"{modname}:{fn.name}: {ast.unparse(node)[:60]}", f"{ctx.path(modname)}:{node.lineno}", ast.unparse(st)[:100], "sorted(...)",
                               "the order of the stored list changes with the interpreter's hash seed")
             else:
-                rep.ok(rule, {"site": f"{modname}:{fn.name}", "expr": ast.unparse(node)[:60], "elements": kind, "observable": observable, "sorted": wrapped_sorted})
+                rep.ok(rule, {"site": f"{modname}:{fn.name}", "expr": ast.unparse(node)[:60], "elements": kind, "observable": observable, "sorted": wrapped_sorted, "worklist": worklist})
     ak = attr_elem_kinds(ctx.trees)
     fx2 = ast.parse("def g(ins, labels):\n    for l in set(ins.labels):\n        ins.add_next(labels[l])\n    for l in ins.labels:\n        ins.add_next(labels[l])\n")
     rep.require(len(order_loops(fx2, {"labels": "unstable"})) == 1, "E-ORDER(loop) does not recognise its positive fixture")
